@@ -138,6 +138,9 @@ var mapPrograms = []string{
 	"a equ a\ndat 1\n",
 	"e1 equ 1\ne2 equ e1+e1\ne3 equ e2+e2\ne4 equ e3+e3\ndat e4, e3\nmov e2, e1\n",
 	"org s\ns equ t\nt equ 1\ndat 0\ndat 0\n",
+	"x equ 2\ny equ 3\nn equ y*x\ni for n\ndat i\nrof\n",
+	"a equ 1\nb equ a+1\nc equ a+b\nd equ c-b\ni for d+b\ndat i, c\nrof\n",
+	"p equ q+r\nq equ 1\nr equ q\ni for p\nj for r\ndat i, j\nrof\nrof\n",
 }
 
 // exploreMapOrders: every map-iteration order vector with at most bound
